@@ -1,6 +1,9 @@
 import Drivers.Proto
 import St4sd.Model.Ctrl
-/-! Model driver for properties C01 and C02 (shared model `St4sd.Ctrl`).
+import St4sd.Model.CtrlSplit
+/-! Model driver for properties C01 and C02 (shared model `St4sd.Ctrl`; C01 entry point: the operations may also be
+the three parts ["finA",c] | ["finB",c] | ["finC",c] of a finished-notification handler, `St4sd.Ctrl.sstep`; the
+snapshots then carry "inflight": [[c, 1 = waits for the lock | 2 = waits for comp_done.add]] when not empty).
 
 request : {"comps":[{stage,preds,isRepeat,isAgg,isRepl,shutdownOn,restartOn,maxRestarts,script}],
            "order":[..], "lastStage":k, "cont":[stages with continue-on-error],
@@ -32,18 +35,21 @@ def parseComp (j : Json) : Except String CompDef := do
            isAgg := ← getBool j "isAgg", isRepl := ← getBool j "isRepl", shutdownOn := so, restartOn := ro,
            maxRestarts := ← getNat j "maxRestarts", script := sc }
 
-def parseOp (j : Json) : Except String Op := do
+def parseOp (j : Json) : Except String SOp := do
   let a ← j.getArr?
   let k ← (a[0]!).getStr?
   let arg : Except String Nat := do (← (a[1]? |>.elim (throw "missing operand") pure)).getNat?
   match k with
-  | "sched" => pure .sched
-  | "kill" => pure .kill
-  | "exit" => return .exit (← arg)
-  | "fin" => return .fin (← arg)
-  | "pm" => return .pm (← arg)
-  | "tick" => return .tick (← arg)
-  | "next" => pure .next
+  | "sched" => pure (.base .sched)
+  | "kill" => pure (.base .kill)
+  | "exit" => return .base (.exit (← arg))
+  | "fin" => return .base (.fin (← arg))
+  | "pm" => return .base (.pm (← arg))
+  | "tick" => return .base (.tick (← arg))
+  | "next" => pure (.base .next)
+  | "finA" => return .finPre (← arg)
+  | "finB" => return .finCrit (← arg)
+  | "finC" => return .finPost (← arg)
   | _ => throw s!"unknown op {k}"
 
 def notifJson : Notif → Json
@@ -60,13 +66,26 @@ def sortNotifs (l : List Notif) : List Notif :=
   let le (a b : Notif) : Bool := (key a).1 < (key b).1 || ((key a).1 == (key b).1 && (key a).2 ≤ (key b).2)
   l.foldl (fun acc x => (acc.takeWhile (fun y => le y x)) ++ [x] ++ (acc.dropWhile (fun y => le y x))) []
 
-def snap (wf : Wf) (s : St) : Json :=
-  jobj [("comps", jarr ((comps wf).map fun c =>
+def phaseNo : Phase → Nat
+  | .waitLock => 1
+  | .waitRecord => 2
+
+/-- insertion sort by (component, phase) (= Python's sorted() on [c, phase] lists) -/
+def sortFlights (l : List (Nat × Nat)) : List (Nat × Nat) :=
+  let le (a b : Nat × Nat) : Bool := a.1 < b.1 || (a.1 == b.1 && a.2 ≤ b.2)
+  l.foldl (fun acc x => (acc.takeWhile (fun y => le y x)) ++ [x] ++ (acc.dropWhile (fun y => le y x))) []
+
+def snap (wf : Wf) (ss : SSt) : Json :=
+  let s := ss.base
+  jobj ([("comps", jarr ((comps wf).map fun c =>
             let cs := s.comp c
             jarr [jstr (stateName cs), jbool (s.done c), jbool cs.staged, jnat cs.launches, jbool cs.finishCalled])),
         ("stop", jbool s.stop),
         ("stage", jnat s.cur),
-        ("pending", jarr ((sortNotifs s.pending).map notifJson))]
+        ("pending", jarr ((sortNotifs s.pending).map notifJson))] ++
+       (if ss.inflight.isEmpty then [] else
+         [("inflight", jarr ((sortFlights (ss.inflight.map fun e => (e.1, phaseNo e.2))).map
+            fun e => jarr [jnat e.1, jnat e.2]))]))
 
 def handle (j : Json) : Except String Json := do
   let cds ← (← getArr j "comps").mapM parseComp
@@ -76,10 +95,10 @@ def handle (j : Json) : Except String Json := do
   let cont ← getNatList j "cont"
   let wf : Wf := { n := cds.length, cdef := fun i => cds.getD i {}, order := order, lastStage := lastStage,
                    contOnErr := fun k => cont.contains k }
-  let (afin, snapsRev) := ops.foldl (fun (acc : (St × Reports) × List Json) op =>
-      let a' := stepR wf acc.1 op
-      (a', snap wf a'.1 :: acc.2)) ((init, []), [])
-  let sfin := afin.1
+  let (afin, snapsRev) := ops.foldl (fun (acc : (SSt × Reports) × List Json) op =>
+      let a' := sstepR wf acc.1 op
+      (a', snap wf a'.1 :: acc.2)) ((sinit, []), [])
+  let sfin := afin.1.base
   let verdictName (v : Verdict) : String :=
     match v with
     | .ok => "ok" | .jobFailure => "UnexpectedJobFailureError"
